@@ -156,6 +156,7 @@ func RunCase(p *Program, sol *Solver, spec CaseSpec) *CaseResult {
 		ex.SkipReach = spec.SkipReach
 		ex.Sched = spec.Sched
 		ex.ZeroDen = spec.ZeroDen
+		ex.IEEE = spec.ZeroDen > 0
 		ex.trackMem = spec.TrackMem
 		if spec.MaxSteps > 0 {
 			ex.MaxSteps = spec.MaxSteps
@@ -357,6 +358,8 @@ func RunConcrete(p *Program, sol *Solver, spec CaseSpec, assignment map[string]s
 	}
 	ex := NewExec(p, sol, spec.FP, nil, nil)
 	ex.Concrete = assignment
+	ex.IEEE = spec.ZeroDen > 0
+	ex.Sched = spec.Sched
 	var params []Value
 	if spec.Name != "" {
 		params = append(params, Str{C: spec.Name})
